@@ -3,8 +3,11 @@
    Quantification: any stream s with oct_wf s (position <= len(buffer), the documented
    invariant; buffer = any list, so any byte string), any read operation op of
    OctetsStream / OctetsReader (oct_op, including OctetsStream.Read(make([]byte,n)) with
-   n >= 0 = oct_op_ok), and any sequence of such calls. *)
-From Got Require Import Base Octets OctetsSpec OctetsProofs.
+   n >= 0 = oct_op_ok), and any sequence of such calls.
+   The last section discharges oct_wf: the state reached by ANY sequence of stream operations
+   (Write, Read, Seek, Tidy, Reset -- C13's model StreamOps.v) corresponds, through the
+   bridge of proofs/OctetsBridge.v, to a well-formed state of this model. *)
+From Got Require Import Base GoSlice Octets OctetsSpec OctetsProofs StreamOps StreamOpsProofs StreamReads OctetsBridge.
 Local Open Scope Z_scope.
 
 (* never panics (both for the code as it is and for the pre-fix ReadBytes) *)
@@ -87,6 +90,130 @@ Theorem c12_read_bytes_orig_alloc_refuted :
     oct_read_bytes OctFixed (oct_write oct_empty input) = (Err OctErrNotEnoughData, s', 0).
 Proof. exact read_bytes_orig_alloc_refuted_lemma. Qed.
 Print Assumptions c12_read_bytes_orig_alloc_refuted.
+
+(* ------------------------------------------------------------------ the cursor hypothesis, discharged *)
+(* StreamOps.v (C13) and Octets.v (C11/C12) are two transcriptions of iox/octets_stream.go.
+   brg_rel s o : the StreamOps state s and the Octets state o have the same bytes and the
+   same position.  On EVERY pair of corresponding states (also position > len) the
+   operations both models have are the same function: *)
+
+(* Len(), Position(), Bytes() = buffer[position:], and the invariants of the two models *)
+Theorem c12_models_agree_observers : forall s o,
+  brg_rel s o ->
+  oct_len o = stm_len s /\ oct_position o = stm_position s /\
+  stm_bytes s = brg_opt_res (oct_slice_from (oct_buf o) (oct_pos o)) /\
+  (stm_inv s <-> oct_wf o) /\
+  (oct_wf o -> stm_bytes s = Ok (oct_rest o) /\ stm_unread s = oct_rest o).
+Proof.
+  exact (fun s o H => conj (brg_len s o H) (conj (brg_position s o H) (conj (brg_bytes s o H)
+           (conj (brg_inv_wf s o H) (brg_bytes_rest s o H))))).
+Qed.
+Print Assumptions c12_models_agree_observers.
+
+(* the correspondence is one-to-one (StreamOps states with a non-negative position) *)
+Theorem c12_models_states_bijective : forall s o,
+  (brg_rel s o <-> (0 <= st_pos s /\ o = brg_oct s)) /\ (brg_rel s o <-> s = brg_stm o).
+Proof. exact (fun s o => conj (brg_rel_iff s o) (brg_rel_iff_stm s o)). Qed.
+Print Assumptions c12_models_states_bijective.
+
+(* Write(p); the raw append of WriteBool/Byte/Int16/Int32/Int64; every typed writer is
+   Write of the value's wire format *)
+Theorem c12_models_agree_write : forall s o,
+  brg_rel s o ->
+  (forall p, brg_rel (stm_write s p) (oct_write o p)) /\
+  (forall l, brg_rel (stm_write s l) (oct_append o l)) /\
+  (forall a x, oct_val_ok x = true ->
+     exists o', oct_write_val a o x = Some o' /\ brg_rel (stm_write s (oct_wire x)) o').
+Proof.
+  exact (fun s o H => conj (fun p => brg_write s o p H) (conj (fun l => brg_append s o l H)
+           (fun a x Hx => brg_write_val a s o x H Hx))).
+Qed.
+Print Assumptions c12_models_agree_write.
+
+(* Read(make([]byte, n)): same bytes, same error, same new position, same panics *)
+Theorem c12_models_agree_read : forall s o n,
+  brg_rel s o -> brg_read_agree s o (stm_read s n) (oct_stream_read o (Z.of_nat n)).
+Proof. exact brg_read. Qed.
+Print Assumptions c12_models_agree_read.
+
+(* Tidy(): same result state, same panics; copy() and the checked slice accessors agree *)
+Theorem c12_models_agree_tidy : forall s o,
+  brg_rel s o -> brg_tidy_agree (stm_tidy s) (oct_tidy o).
+Proof. exact brg_tidy. Qed.
+Print Assumptions c12_models_agree_tidy.
+
+Theorem c12_models_agree_slices : forall (l : list Z),
+  (forall p, gs_slice_from l (Z.of_nat p) = brg_opt_res (oct_slice_from l p)) /\
+  (forall a b, gs_slice l a b = brg_opt_res (oct_slice l a b)) /\
+  (forall src, gs_copy l src = oct_copy l src).
+Proof. exact (fun l => conj (brg_slice_from l) (conj (brg_slice l) (brg_copy l))). Qed.
+Print Assumptions c12_models_agree_slices.
+
+(* THE composed property.  For every sequence ops of stream operations (Write of any bytes,
+   Read of any size, Seek with ANY offset and whence -- also invalid ones, also outside the
+   int64 range --, Tidy, Reset; the code as it is now, with the Seek upper-bound check)
+   applied to the empty stream, and every sequence rops of typed read calls made afterwards
+   on the same stream: no stream operation panics; the state reached has
+   0 <= Position() <= Len(); no read call panics, the buffer is unchanged, every cursor is
+   monotone within [Position(), Len()], the bytes requested from make() are bounded by the
+   unread bytes at the time of the call (oct_reads_safe); failed fixed-width reads consume
+   nothing (brg_fixed_fail_nothing); and this is the function the correspondence check
+   compares with the real code (brg_case; its first part is C13's trace).
+   No hypothesis on the cursor: it is c13_stm_cursor_in_bounds (StreamOpsProofs.stm_run_inv)
+   carried across the bridge. *)
+Theorem c12_reads_safe_after_any_ops : forall v ops rops,
+  forallb oct_op_ok rops = true ->
+  exists s rs,
+    stm_run StmFixed stm_init ops = Ok (s, rs) /\ length rs = length ops /\
+    brg_rel s (brg_oct s) /\
+    0 <= oct_position (brg_oct s) <= oct_len (brg_oct s) /\
+    oct_reads_safe v (brg_oct s) (oct_run_reads v rops (brg_oct s)) /\
+    brg_fixed_fail_nothing rops (brg_oct s) (oct_run_reads v rops (brg_oct s)) /\
+    brg_case StmFixed v ops rops =
+      (stm_trace StmFixed stm_init ops, Some (oct_run_reads v rops (brg_oct s))).
+Proof. exact reads_safe_after_any_ops_lemma. Qed.
+Print Assumptions c12_reads_safe_after_any_ops.
+
+(* neither Seek variant ever stores a negative position: every reachable StreamOps state
+   has an Octets counterpart *)
+Theorem c12_stream_position_never_negative : forall sv ops s rs,
+  stm_run sv stm_init ops = Ok (s, rs) -> 0 <= st_pos s /\ brg_rel s (brg_oct s).
+Proof.
+  exact (fun sv ops s rs H =>
+    let Hp := brg_run_pos_nonneg sv ops stm_init s rs (Z.le_refl 0) H in conj Hp (brg_rel_oct s Hp)).
+Qed.
+Print Assumptions c12_stream_position_never_negative.
+
+(* with the pre-fix Seek (no upper bound) the property is false: after Write(4 bytes);
+   Seek(10, SeekStart) -- which the current code rejects -- Position() = 10 > Len() = 4,
+   OctetsStream.Read(make([]byte, 1)) panics, ReadByte / ReadInt32 return ErrNotEnoughData
+   with the cursor outside the data *)
+Theorem c12_reads_after_orig_seek_refuted :
+  exists ops s rs,
+    stm_run StmOrig stm_init ops = Ok (s, rs) /\ brg_rel s (brg_oct s) /\
+    oct_position (brg_oct s) = 10 /\ oct_len (brg_oct s) = 4 /\ ~ oct_wf (brg_oct s) /\
+    fst (fst (oct_read_op OctFixed (OpRead 1) (brg_oct s))) = Panic /\
+    oct_read_op OctFixed (OpByte OctViaStream) (brg_oct s) = (Err OctErrNotEnoughData, brg_oct s, 0) /\
+    oct_read_op OctFixed (OpInt32 OctViaReader) (brg_oct s) = (Err OctErrNotEnoughData, brg_oct s, 0) /\
+    ~ oct_reads_safe OctFixed (brg_oct s) (oct_run_reads OctFixed [OpRead 1] (brg_oct s)) /\
+    ~ oct_reads_safe OctFixed (brg_oct s) (oct_run_reads OctFixed [OpByte OctViaStream] (brg_oct s)) /\
+    stm_run StmFixed stm_init ops = Ok (mk_stm [1; 2; 3; 4] 0, [SRWrote; SRSeek None]).
+Proof. exact reads_after_orig_seek_refuted_lemma. Qed.
+Print Assumptions c12_reads_after_orig_seek_refuted.
+
+(* non-vacuity of the composed property: write, partial read, a rejected and two accepted
+   Seeks, Tidy, more data; then a length-prefixed read, an int16, and two reads that fail *)
+Example c12s_nonvacuous :
+  brg_case StmFixed OctFixed
+    [SWrite [9; 2; 65; 66; 7]; SRead 1%nat; SSeek 9 0; SSeek (-1) 2; SSeek 1 0; STidy; SWrite [1]]
+    [OpBytes; OpInt16 OctViaReader; OpInt32 OctViaStream; OpByte OctViaStream] =
+  (stm_trace StmFixed stm_init
+     [SWrite [9; 2; 65; 66; 7]; SRead 1%nat; SSeek 9 0; SSeek (-1) 2; SSeek 1 0; STidy; SWrite [1]],
+   Some [(Ok (OVBytes [65; 66]), oct_mk [2; 65; 66; 7; 1] 3, 2);
+         (Ok (OVInt16 263), oct_mk [2; 65; 66; 7; 1] 5, 0);
+         (Err OctErrNotEnoughData, oct_mk [2; 65; 66; 7; 1] 5, 0);
+         (Err OctErrNotEnoughData, oct_mk [2; 65; 66; 7; 1] 5, 0)]).
+Proof. exact c12s_example. Qed.
 
 (* non-vacuity: an over-long 7-bit run, a length prefix larger than the rest, a truncated
    int16, then the last byte *)
